@@ -1,7 +1,9 @@
 -- line-protocol handler of property C01 (completeness): the protocol glue of
--- Winter/Model/Protocol.lean; end-to-end `run` lines are not modelled (answer `-`)
+-- Winter/Model/Protocol.lean and the executable reference prover of Winter/Model/RefProver.lean
+-- (`refp`: the bytes of the proof); end-to-end `run` lines are not modelled (answer `-`)
 import Winter.Drv.Util
 import Winter.Model.Protocol
+import Winter.Model.RefProver
 import Winter.Gen.ProofOpts
 import Winter.Gen.FriOpts
 
@@ -37,9 +39,36 @@ def genDiff (n : Nat) (o : Options) (x : Nat) (r : Res Glue) : String :=
       then toString (Gen.FriOpts.num_fri_layers 64 fo.2.2 fo.1 fo.2.1 lde) else "panic"
     d1 ++ (if layG == toString gl.layers then "" else s!" gen:layers={layG}")
 
+/-- `q.b.g.x.f.r` -/
+def optsOf (s : String) : Option Model.Serde.ProofOptions :=
+  match (s.splitOn ".").mapM Model.VerifierChecks.parseNat with
+  | some [q, b, g, x, f, r] => some ⟨q, b, g, x, f, r⟩
+  | _ => none
+
+/-- columns separated by `/`, cells by `,` -/
+def traceOf (s : String) : Option (List (List Nat)) :=
+  (s.splitOn "/").mapM fun c => (c.splitOn ",").mapM Model.VerifierChecks.parseNat
+
+/-- `refp <field> <hasher> <opts> <seed> <desc> <trace>`: the reference prover's proof bytes -/
+def handleRefp (f h opts desc trace : String) : String :=
+  match Model.RefVerifier.instOf f h with
+  | none => "-"
+  | some J =>
+    match Model.RefVerifier.parseDesc desc, optsOf opts, traceOf trace with
+    | some d, some o, some t =>
+      if d.aux.isSome then "-"
+      else if t.length ≠ d.air.width ∨ t.any (fun c => c.length ≠ d.air.n) ∨ t.any (fun c => c.any (· ≥ J.I.M)) then "bad-op"
+      else
+        match Model.RefProver.refProve J d t o with
+        | .ok bs => hexOf bs
+        | .error _ => "panic"
+    | _, _, _ => "bad-op"
+
 def handle (toks : List String) : String :=
   match toks with
   | "run" :: _ => "-"
+  | ["refp", f, h, opts, _seed, desc, trace] => handleRefp f h opts desc trace
+  | "refp" :: _ => "bad-op"
   | ["glue", n, q, b, g, x, f, r, e, mw, aw, nr, md, ad] =>
     match natList [n, q, b, g, x, f, r, e, mw, aw, nr], degrees? md, degrees? ad with
     | some [n, q, b, g, x, f, r, e, mw, aw, nr], some md, some ad =>
